@@ -30,6 +30,7 @@ import (
 	"os"
 	stdpath "path"
 	"path/filepath"
+	"runtime"
 	"sort"
 	"strconv"
 	"strings"
@@ -1344,7 +1345,15 @@ func TestVerifC03E2E(t *testing.T) {
 	if err := e.start(); err != nil {
 		t.Fatal(err)
 	}
-	defer e.p.Close()
+	defer func() {
+		fin := make(chan struct{})
+		go func() { e.p.Close(); close(fin) }()
+		select {
+		case <-fin:
+		case <-time.After(30 * time.Second):
+			t.Logf("Core.Close did not return")
+		}
+	}()
 	var err error
 	if e.offer, err = vE2EOffer(); err != nil {
 		t.Fatalf("offer: %v", err)
@@ -1373,18 +1382,49 @@ func TestVerifC03E2E(t *testing.T) {
 	for i, a := range atts {
 		a.idx = i
 	}
+	// every attempt under a watchdog: one that does not come back (a client library or a server blocked for good) is
+	// dropped from the output instead of stalling the check; too many of them fail the driver
 	sem := make(chan struct{}, 64)
 	var wg sync.WaitGroup
-	for _, a := range atts {
+	hung := make([]bool, len(atts))
+	for i, a := range atts {
 		wg.Add(1)
 		sem <- struct{}{}
-		go func(a *vE2EAtt) {
+		go func(i int, a *vE2EAtt) {
 			defer wg.Done()
 			defer func() { <-sem }()
-			e.run(a)
-		}(a)
+			fin := make(chan struct{})
+			go func() {
+				defer close(fin)
+				e.run(a)
+			}()
+			select {
+			case <-fin:
+			case <-time.After(120 * time.Second):
+				hung[i] = true
+			}
+		}(i, a)
 	}
 	wg.Wait()
+	nh := 0
+	var done []*vE2EAtt
+	for i, a := range atts {
+		if hung[i] {
+			nh++
+			t.Logf("attempt %d (%s publish=%v %q) did not return", i, vE2EProtoNames[a.proto], a.publish, a.path)
+		} else {
+			done = append(done, a)
+		}
+	}
+	if nh > 0 {
+		buf := make([]byte, 4<<20)
+		buf = buf[:runtime.Stack(buf, true)]
+		os.WriteFile(filepath.Join(dir, "c03e2e_hung_goroutines.txt"), buf, 0o644) //nolint:errcheck
+	}
+	if nh*10 > len(atts) {
+		t.Fatalf("%d of %d attempts did not return", nh, len(atts))
+	}
+	atts = done
 
 	// the base publishers must still be where they were (a kicked one would make readers' refusals meaningless)
 	l, err := e.p.pathManager.APIPathsList()
@@ -1416,5 +1456,8 @@ func TestVerifC03E2E(t *testing.T) {
 	out.extra["matrix"] = map[string]string{"one.read": e.oneR, "one.publish": e.oneP, "any.read": e.anyR, "any.publish": e.anyP}
 	if len(lost) > 0 {
 		out.extra["base_publishers_lost"] = lost
+	}
+	if nh > 0 {
+		out.extra["attempts_dropped_by_watchdog"] = nh
 	}
 }
